@@ -7,13 +7,20 @@ CLAIM = ('Proved in Coq END TO END for the model, Numbers naming without and wit
          'empty directory (snapshots modulo the foreign entries), every foreign file keeps its content, all other names and '
          'contents are those of the run in the empty directory - also under cleanup, which neither removes nor compresses a '
          'foreign file (C14_numbers_foreign_ignored, C14_numbers_stream_foreign, C14_numbers_cleanup_foreign_ignored; the proof '
-         'is a step-by-step commutation of the whole model with an embedding of the directory). The proof attempt pinned down '
-         'the family test exactly: a_r1x.log IS a family member for the number filter (r + digit + one more byte) - such names '
-         'are not foreign. Decided per explored history by comparing, on the implementation, a run in a directory pre-populated '
-         'with foreign files (near misses of the family pattern) with its twin run in a clean directory: every foreign file must '
-         'still exist with unchanged bytes, and the family files, the results of existing_log_files and all return values must '
-         'be identical in both runs (noninterference oracle), together with the correspondence check of both runs against the '
-         'model. Proved in Coq: the characterisation of family names used by the oracles (full_infix recognises exactly '
+         'is a step-by-step commutation of the whole model with an embedding of the directory). The first proof pinned down the '
+         'family test of the code exactly: a_r1x.log WAS a family member for the number filter (r + digit + one more byte) - and '
+         'the machinery then wrongly followed the code instead of the property: such a name does not carry an infix of the '
+         'naming scheme. After an independent reviewer pointed at app_r1backup.log being deleted by the cleanup, the near-miss '
+         'grammar was extended by such names (48 failing twin runs on the unchanged code), the defect repaired (1309209: the '
+         'number filter wants r + digits only, latest_timestamp_file lists with the time-stamp filter) and the member tests of '
+         'the theorems are now characterised as exactly the documented patterns (C14_num_member_pattern, '
+         'C14_numd_member_pattern, C14_ts_member_pattern, C14_tsd_member_pattern; a number-named file is foreign to a time-stamp '
+         'logger and vice versa: C14_number_files_foreign_ts, C14_ts_files_foreign_number; C14_num_foreign_non_digit). Decided '
+         'per explored history by comparing, on the implementation, a run in a directory pre-populated with foreign files (near '
+         'misses of the family pattern) with its twin run in a clean directory: every foreign file must still exist with '
+         'unchanged bytes, and the family files, the results of existing_log_files and all return values must be identical in '
+         'both runs (noninterference oracle), together with the correspondence check of both runs against the model. Proved in '
+         'Coq: the characterisation of family names used by the oracles (full_infix recognises exactly '
          "fixed[_infix][.suffix][.gz], C14_family_name_shape) and that the model's listing never returns a name without the "
          "fixed part and separator (C14_listing_prefix); the listing's family test accepts exactly the documented pattern "
          '(C14_listing_accepts_family_only / _all_family) and an entry it rejects does not influence filter_files, on which '
@@ -21,14 +28,13 @@ CLAIM = ('Proved in Coq END TO END for the model, Numbers naming without and wit
          'other three namings without cleanup (C14_numbersdirect_foreign_ignored, C14_numbersdirect_stream_foreign, '
          'C14_timestampsdirect_foreign_ignored, C14_timestampsdirect_stream_foreign, C14_timestamps_foreign_ignored, '
          'C14_timestamps_stream_foreign; time-stamp namings: clock not going backwards, up to the year 9999), each against the '
-         "real family test of that naming's listings (C14_ts_member_shape: every member is fixed_r...). The proofs pinned down "
-         'what is NOT foreign: a name that passes the family filter although the logger did not write it '
-         "(a_r1999-01-01_00-00-00.log, a_r1970-1-1_0-0-0.log through chrono's lenient parsing, a_r1x.log for the number filter, "
-         "a stranger's a_rCURRENT.log) is treated as the logger's own - continued, renamed, counted, cleaned up (examples "
-         'evaluated in Coq in Flw/TsdForeign.v, Flw/TsForeign.v); the property speaks of files that do not match the family '
-         'pattern. Partial: the three other namings combined with a cleanup strategy, and histories with queries, reopen, faults '
-         'or kills, are decided by the twin runs only. ')
-THEOREMS = ["C14_numbers_foreign_ignored", "C14_numbers_stream_foreign", "C14_numbers_cleanup_foreign_ignored", "C14_foreign_ignored", "C14_listing_accepts_family_only", "C14_listing_accepts_all_family", "C14_family_name_shape", "C14_listing_prefix", "C14_numbersdirect_foreign_ignored", "C14_numbersdirect_stream_foreign", "C14_timestampsdirect_foreign_ignored", "C14_timestampsdirect_stream_foreign", "C14_timestamps_foreign_ignored", "C14_timestamps_stream_foreign", "C14_ts_member_shape"]
+         "real family test of that naming's listings (C14_ts_member_shape: every member is fixed_r...). Still not foreign, "
+         "legitimately - the names DO follow the pattern although the logger did not write them: a stranger's "
+         "a_r1999-01-01_00-00-00.log, chrono's lenient a_r1970-1-1_0-0-0.log, a number of any length (a_r1.log), a stranger's "
+         'a_rCURRENT.log (examples evaluated in Coq in Flw/MemberPattern.v, Flw/TsdForeign.v, Flw/TsForeign.v). Partial: the '
+         'three other namings combined with a cleanup strategy, and histories with queries, reopen, faults or kills, are decided '
+         'by the twin runs only. ')
+THEOREMS = ["C14_numbers_foreign_ignored", "C14_numbers_stream_foreign", "C14_numbers_cleanup_foreign_ignored", "C14_foreign_ignored", "C14_listing_accepts_family_only", "C14_listing_accepts_all_family", "C14_family_name_shape", "C14_listing_prefix", "C14_numbersdirect_foreign_ignored", "C14_numbersdirect_stream_foreign", "C14_timestampsdirect_foreign_ignored", "C14_timestampsdirect_stream_foreign", "C14_timestamps_foreign_ignored", "C14_timestamps_stream_foreign", "C14_ts_member_shape", "C14_num_member_pattern", "C14_numd_member_pattern", "C14_tsd_member_pattern", "C14_ts_member_pattern", "C14_num_foreign_non_digit", "C14_number_files_foreign_ts", "C14_ts_files_foreign_number"]
 TRUSTED = ["modelled, not verified: read_dir, Path::extension/file_stem (std semantics pinned in DESIGN appendix D)"]
 ASSUMPTIONS = ["foreign names are generated from a near-miss grammar; file modification times are not compared (content and existence are)"]
 RULE = ("pairs of cases: (a) 1-4 foreign files/sub-directories created first - other separator, longer/shorter basename with common "
@@ -59,6 +65,9 @@ def foreign_names(rng, cfg, naming):
         fixed + b"_" + idx + b"." + sfx + b".bak",
         fixed + b"_" + idx + b".restart-xy." + sfx,      # malformed restart fragment
         b"README.md",
+        fixed + b"_" + idx + b"x." + sfx,                # an infix of the scheme with a trailing letter
+        fixed + b"_r1backup." + sfx,                     # 'r' + digit + text
+        fixed + b"_" + (b"r2024-02-29_23-59-58" if naming.startswith("num") else b"r00001") + b"." + sfx,   # an infix of another scheme
     ]
     return rng.sample(cands, rng.randint(1, 4))
 
